@@ -116,10 +116,12 @@ def mutants(wf, rng, limit):
             if do and (isinstance(do, list) or "," not in do):
                 m = copy.deepcopy(base)
                 trm = m["tasks"][nm]["next"][j]
+                # (also names that happen to be attributes of the container the tasks are kept in)
+                ghost = rng.choice(["ghost_task", "ghost_task", "items", "update", "copy", "keys", "values", "pop", "get"])
                 if isinstance(do, list):
-                    trm["do"] = ["ghost_task"] + list(do[1:])
+                    trm["do"] = [ghost] + list(do[1:])
                 else:
-                    trm["do"] = "ghost_task"
+                    trm["do"] = ghost
                 out.append(("undefined_target", "semantics", m))
     # reserved names
     for cmd in ("noop", "fail", "continue", "retry"):
@@ -209,10 +211,18 @@ def completeness(job):
             out["nontrivial"].add(workloads.digest(mw))
             try:
                 spec = native_specs.WorkflowSpec(copy.deepcopy(mw))
-                rep = spec.inspect()
             except Exception as e:
                 # a definition that cannot even be loaded is rejected, loudly
                 C["mutants_rejected_at_load"] = C.get("mutants_rejected_at_load", 0) + 1
+                continue
+            try:
+                rep = spec.inspect()
+            except Exception as e:
+                # the fault is to be REPORTED: an internal error out of inspect() is not a report
+                out["violations"].append(dict(prop="C15", kind="inspection_raised", subject=":".join(fault.split(":")[:2]), cause=None,
+                                              detail="inspect() of a single-fault mutant (%s) raised %s: %s" % (fault, type(e).__name__, str(e)[:150]),
+                                              wf=mw, workload=job.get("name"),
+                                              job=dict({x: job[x] for x in job if x not in ("lo", "hi")}, only=[seed, k], lo=seed, hi=seed + 1)))
                 continue
             if not rep:
                 out["violations"].append(dict(prop="C15", kind="fault_not_reported", subject=":".join(fault.split(":")[:2]), cause=None,
